@@ -120,6 +120,38 @@ let handle = function
                  | Verify.PSend _ -> "send" | Verify.PUnsupported -> "unsupported") in
       Printf.sprintf "m1=%s acc=%s m2spec=%s result=%s m3acc=%s keys=%s" m1 accst m2spec res
         (ob t.Verify.tr_m3_accepted) (ob t.Verify.tr_keys_agree)
+  | "hist" :: tr :: acc_id :: ltpk :: ios_id :: ltsk :: events ->
+      (* hist <tr> <acc_id hex> <ltpk msg> <ios_id hex> <ltsk n> <event>...
+         event = V:<eph n>:<m2 reply>:<m4 reply> | D | R
+         answer, one word per event:  <live 0|1>,<k>,<r>  where k (r) = position of the first state of this
+         history that already held these installed keys (this resumable secret), or - when there are none *)
+      let tr = tr_of tr in
+      let pd = { Verify.pd_acc_id = bytes_of_hex acc_id; pd_acc_ltpk = parse_msg ltpk;
+                 pd_ios_id = bytes_of_hex ios_id; pd_ios_ltsk = n_of_dec ltsk } in
+      let ev_of tok =
+        if tok = "D" then VerifyHist.EDrop else if tok = "R" then VerifyHist.EReset else
+        (match Stdlib.String.split_on_char ':' tok with
+         | ["V"; eph; m2; m4] -> VerifyHist.EVerify (n_of_dec eph, parse_reply m2, parse_reply m4)
+         | _ -> raise (Parse ("event " ^ tok))) in
+      let states = VerifyHist.g_trace tr pd VerifyHist.g_init (Stdlib.List.map ev_of events) in
+      let arr = Array.of_list states in
+      let first_idx pred i =
+        let r = ref (-1) in
+        for j = i downto 0 do if pred arr.(j) then r := j done;
+        if !r < 0 then "-" else string_of_int !r in
+      let word i st =
+        let k = (match st.VerifyHist.gs_keys with
+                 | None -> "-"
+                 | Some ks -> first_idx (fun s -> match s.VerifyHist.gs_keys with
+                                                  | Some x -> Verify.keys_eqb x ks | None -> false) i) in
+        let r = (match st.VerifyHist.gs_resume with
+                 | None -> "-"
+                 | Some rs -> first_idx (fun s -> match s.VerifyHist.gs_resume with
+                                                  | Some x -> msg_eqb x.Verify.rs_secret rs.Verify.rs_secret
+                                                  | None -> false) i) in
+        Printf.sprintf "%s,%s,%s" (if st.VerifyHist.gs_live then "1" else "0") k r in
+      if states = [] then "." else
+      Stdlib.String.concat " " (Stdlib.List.mapi word states)
   | _ -> "bad-request"
 
 let () = main_loop handle
